@@ -104,4 +104,42 @@ def libIsTsigExpected : String :=
   "len(dns.Extra) > 0 | dns.Extra[len(dns.Extra)-1].Header().Rrtype == TypeTSIG"
 theorem lib_istsig_src : lib_istsig_conds = libIsTsigExpected := by decide
 
+/-- The repaired `truncate`: answers removed when TC is set, then the options of the OPT record
+removed when nothing else is left and the message is still too long (`dropOpts`). -/
+def truncateCondsExpected : String :=
+  "resp.Truncated | opt != nil && len(opt.Option) > 0 && len(resp.Answer)+len(resp.Ns)+len(resp.Extra) == 1 && resp.Len() > size"
+set_option maxRecDepth 8192 in
+theorem truncate_conds_src : truncate_conds = truncateCondsExpected := by decide
+theorem truncate_drop_src : truncate_drop = "nil" := by decide
+
+/-- `ameshkov/dnscrypt` v2.3.0 as modelled by `dcAccepts`, `dcSize`, `dcTruncate`, `dcPadded`,
+`dcEncLen`, `dcPrefix` (read from the module cache). -/
+def dcServeCondsExpected : String :=
+  "r == nil || len(r.Question) != 1 || r.Response | handler == nil | err != nil"
+theorem dc_serve_conds_src : dc_serve_conds = dcServeCondsExpected := by decide
+theorem dc_norm_conds_src : dc_norm_conds = "res.Truncated && proto == \"udp\"" := by decide
+theorem dc_norm_size0_src : dc_norm_size0 = "dnsSize(proto, req)" := by decide
+theorem dc_norm_size1_src : dc_norm_size1 = "size - 64" := by decide
+theorem dc_norm_call_src : dc_norm_call = "size" := by decide
+theorem dc_dnssize_conds_src :
+    dc_dnssize_conds = "o != nil | proto != \"udp\" | size < dns.MinMsgSize" := by decide
+theorem dc_dnssize_returns_src :
+    dc_dnssize_returns = "dns.MaxMsgSize | dns.MinMsgSize | int(size)" := by decide
+theorem dc_pad_size0_src :
+    dc_pad_size0 = "len(packet) + 1 + (64 - (len(packet)+1)%64)" := by decide
+theorem dc_pad_size1_src : dc_pad_size1 = "max(minUDPQuestionSize, minQuestionSize)" := by decide
+theorem dc_min_udp_question_src : dc_min_udp_question = "256" := by decide
+theorem dc_udp_write_order_src : dc_udp_write_order = "normalize,encrypt,WriteToSessionUDP" := by decide
+theorem dc_tcp_write_order_src : dc_tcp_write_order = "normalize,encrypt,writePrefixed" := by decide
+theorem dc_prefix_args_src : dc_prefix_args = "l, uint16(len(b))" := by decide
+
+/-- DoH: the GET form decodes the same wire format; one `writeResponse` (one `normalizeTCP`) serves
+POST, GET and the JSON API; the JSON API's own query has an OPT record only for `do` / `sde`
+(UDP size 65535). -/
+theorem https_get_return_src :
+    https_get_return = "base64.RawURLEncoding.DecodeString(b64[0])" := by decide
+theorem https_write_calls_src : https_write_calls = "normalizeTCP,isDoH,Pack,dnsMsgToJSON" := by decide
+theorem json_edns_args_src : json_edns_args = "dns.MaxMsgSize, do" := by decide
+theorem json_edns_cond_src : json_edns_cond = "!do && !sde | sde" := by decide
+
 end Agd.Tie.C08
